@@ -57,6 +57,12 @@ Theorem qty_round_impl_eq dm is_dec p nd :
   qty_round_impl dm is_dec p nd = Ok (qty_round dm is_dec p nd).
 Proof. reflexivity. Qed.
 
+Theorem qty_unary_impl_eq dm is_dec p :
+  qty_abs_impl dm is_dec p = Ok (qty_abs dm p) /\
+  qty_neg_impl dm is_dec p = Ok (qty_neg dm p) /\
+  qty_pos_impl dm is_dec p = Ok p.
+Proof. repeat split. Qed.
+
 Lemma qty_sum_from_impl_eq ce dm l : forall acc,
   qty_sum_from_impl ce dm acc l = qty_sum_from ce dm acc l.
 Proof.
